@@ -121,6 +121,8 @@ class DynamicComponent(Component):
             # `self.input.context` may have already left the scopes (e.g. `{% provide %}` or `{% with %}`)
             # that surrounded the tag. So we keep a snapshot of the Context as it is now.
             "input_context": snapshot_context(self.input.context),
+            # Same for the Context in which the fills are rendered (see `Component.outer_context`).
+            "outer_context": snapshot_context(self.outer_context) if self.outer_context is not None else None,
         }
 
     # NOTE: The inner component is rendered in `on_render_before`, so that the `Context` object
@@ -134,7 +136,7 @@ class DynamicComponent(Component):
 
         comp = comp_class(
             registered_name=self.registered_name,
-            outer_context=self.outer_context,
+            outer_context=context["outer_context"],
             registry=self.registry,
         )
         output = comp.render(
